@@ -167,8 +167,33 @@ func refPolicy(c *Case) (accept bool, reasons []string) {
 	if http.StatusText(c.Status) == "" {
 		no("status not understood")
 	}
+	dirs := ccNames(strings.Join(c.CacheControl, ","), false)
+	for _, r := range storableReasons(c, dirs) {
+		no(r)
+	}
+	return len(reasons) == 0, reasons
+}
+
+func storableReasons(c *Case, dirs map[string]bool) (reasons []string) {
+	if dirs["no-store"] {
+		reasons = append(reasons, "no-store")
+	}
+	if dirs["private"] {
+		reasons = append(reasons, "private")
+	}
+	if !(c.ExpiresHdr != "" || dirs["max-age"] || dirs["s-maxage"] || defaultCacheable[c.Status] || dirs["public"]) {
+		reasons = append(reasons, "no explicit freshness, status not cacheable by default, not public")
+	}
+	return
+}
+
+// ccNames returns the directive names of a Cache-Control value. quoted=false: the list is cut at
+// every comma (the repository's documented simplification: "TODO: correctly handle quoted-string
+// arguments"); quoted=true: RFC 7234 / 7230 syntax, commas and escaped quotes inside a
+// quoted-string argument belong to the argument (nil for an unterminated quoted-string).
+func ccNames(v string, quoted bool) map[string]bool {
 	dirs := map[string]bool{}
-	for _, part := range strings.Split(strings.Join(c.CacheControl, ","), ",") {
+	add := func(part string) {
 		part = strings.TrimSpace(part)
 		name := part
 		if i := strings.IndexByte(part, '='); i >= 0 {
@@ -176,16 +201,47 @@ func refPolicy(c *Case) (accept bool, reasons []string) {
 		}
 		dirs[strings.ToLower(name)] = true
 	}
-	if dirs["no-store"] {
-		no("no-store")
+	if !quoted {
+		for _, part := range strings.Split(v, ",") {
+			add(part)
+		}
+		return dirs
 	}
-	if dirs["private"] {
-		no("private")
+	start, inq := 0, false
+	for i := 0; i < len(v); i++ {
+		switch {
+		case inq && v[i] == '\\':
+			i++ // quoted-pair
+		case v[i] == '"':
+			inq = !inq
+		case !inq && v[i] == ',':
+			add(v[start:i])
+			start = i + 1
+		}
 	}
-	if !(c.ExpiresHdr != "" || dirs["max-age"] || dirs["s-maxage"] || defaultCacheable[c.Status] || dirs["public"]) {
-		no("no explicit freshness, status not cacheable by default, not public")
+	if inq {
+		return nil
 	}
-	return len(reasons) == 0, reasons
+	add(v[start:])
+	return dirs
+}
+
+// ccAmbiguous: the storable-by-a-shared-cache verdict depends on how quoted-string arguments are
+// read (the simplified and the exact reading disagree, or the value is malformed): the property
+// does not settle which reading applies, so such a case is not judged on cacheability.
+func ccAmbiguous(c *Case) bool {
+	if c.Version != "1b3" {
+		return false
+	}
+	v := strings.Join(c.CacheControl, ",")
+	if !strings.Contains(v, `"`) {
+		return false
+	}
+	exact := ccNames(v, true)
+	if exact == nil {
+		return true
+	}
+	return (len(storableReasons(c, exact)) == 0) != (len(storableReasons(c, ccNames(v, false))) == 0)
 }
 
 func build(c *Case) *sxgkit.Spec {
@@ -270,6 +326,14 @@ var prop = vh.Define("C09", "policy", func(c Case, r *vh.R) {
 		}
 	}
 	want, reasons := refPolicy(&c)
+	if ccAmbiguous(&c) {
+		r.Class("cache-control-reading-ambiguous")
+		r.Skip = true
+		return
+	}
+	if strings.Contains(strings.Join(c.CacheControl, ","), `"`) {
+		r.Class("cache-control-with-quoted-string")
+	}
 	t := baseDate + c.DateShift + tOffset(&c)
 	p, got, lg := sxgkit.VerifyLogAt(e, t, tNsec(&c), sxgkit.Fetcher(c.Fixture))
 	r.Class(c.Version)
@@ -297,6 +361,10 @@ var prop = vh.Define("C09", "policy", func(c Case, r *vh.R) {
 var harmlessCC = []string{"max-age=600", "s-maxage=60", "public", "must-revalidate", "no-cache", "no-transform", "ext=1", "MAX-AGE=5", "Public", "stale-while-revalidate=30", "max-age=0"}
 var harmfulCC = []string{"no-store", "private", "NO-STORE", "Private", "private=\"x\"", "No-Store"}
 var neutralCC = []string{"must-revalidate", "no-cache", "no-transform", "ext=1", "immutable"}
+
+// quoted-string arguments (RFC 7230 3.2.6): commas, escaped quotes and escaped backslashes inside
+var quotedCC = []string{`ext="a\"b"`, `community="5\" screens"`, `ext="a, b"`, `no-cache="set-cookie, x-y"`, `ext="\\"`, `ext="a\\\"b"`, `ext=""`, `ext="\""`, `ext="x\"y\"z"`, `ext="q=\"1\""`}
+
 
 func randCase(s string, t *rapid.T, label string) string {
 	b := []byte(s)
@@ -335,7 +403,7 @@ func allGood(t *rapid.T) Case {
 	n := rapid.IntRange(0, 3).Draw(t, "ccn")
 	var parts []string
 	for i := 0; i < n; i++ {
-		parts = append(parts, rapid.SampledFrom(harmlessCC).Draw(t, "cc"))
+		parts = append(parts, rapid.SampledFrom(append(append([]string{}, harmlessCC...), quotedCC[:5]...)).Draw(t, "cc"))
 	}
 	c.CacheControl = splitValues(t, parts)
 	if rapid.Bool().Draw(t, "hasexpires") {
@@ -396,7 +464,7 @@ func fault(t *rapid.T, c *Case) {
 	case "cc-harmful":
 		parts := []string{rapid.SampledFrom(harmfulCC).Draw(t, "harmful")}
 		for i := rapid.IntRange(0, 2).Draw(t, "extra"); i > 0; i-- {
-			parts = append(parts, rapid.SampledFrom(harmlessCC).Draw(t, "cc2"))
+			parts = append(parts, rapid.SampledFrom(append(append([]string{}, harmlessCC...), quotedCC...)).Draw(t, "cc2"))
 		}
 		// permute
 		perm := rapid.Permutation(parts).Draw(t, "perm")
@@ -521,6 +589,18 @@ func TestGrid(t *testing.T) {
 				ok = ok && try(func(c *Case) { c.Status = st; c.CacheControl = cc })
 			}
 			ok = ok && try(func(c *Case) { c.Status = st; c.ExpiresHdr = "0" })
+		}
+		// quoted-string arguments before / after / around a restricting or a freshness directive
+		if v == "1b3" {
+			for _, q := range quotedCC {
+				for _, d := range []string{"no-store", "private", "max-age=60", "public"} {
+					for _, st := range []int{200, 302} {
+						for _, lay := range [][]string{{q, d}, {d, q}, {"max-age=600", q, d}, {q + ", " + d}, {d + "," + q + ",ext=2"}} {
+							ok = ok && try(func(c *Case) { c.Status = st; c.CacheControl = lay })
+						}
+					}
+				}
+			}
 		}
 		if !ok {
 			return
